@@ -84,16 +84,61 @@ def int_expr(txt, env):
         return ord(bytes(b).decode("utf-8"))
     if not re.fullmatch(r"[\w\s+\-*<>()|&^]+", t):
         raise TableError("unsupported constant expression %r" % txt)
-    t = re.sub(r"\b0[0-7]+\b", lambda m: "0o" + m.group(0)[1:], t)
-    def sub(m):                         # names are replaced textually (`as` is a Python keyword)
-        if m.group(0) not in env:
-            raise TableError("unknown name %s in %r" % (m.group(0), txt))
-        return "(%d)" % env[m.group(0)]
-    t = re.sub(r"\b[A-Za-z_]\w*\b", sub, t)
-    try:
-        return int(eval(t, {"__builtins__": {}}, {}))
-    except Exception as e:
-        raise TableError("cannot evaluate %r: %s" % (txt, e))
+    return go_eval(t, env, txt)
+
+
+def go_eval(t, env, orig):
+    """integer constant expression with GO operator precedence (`1<<7 - 1` is 127): * / % << >> & &^ bind tighter than + - | ^"""
+    toks = re.findall(r"0[xX][0-9a-fA-F_]+|0[bB][01_]+|0[oO][0-7_]+|\d[\d_]*|[A-Za-z_]\w*|<<|>>|&\^|[-+*/%&|^()]", t)
+    if "".join(toks) != re.sub(r"\s+", "", t):
+        raise TableError("cannot tokenise %r" % orig)
+    pos = [0]
+
+    def peek():
+        return toks[pos[0]] if pos[0] < len(toks) else None
+
+    def nxt():
+        pos[0] += 1
+        return toks[pos[0] - 1]
+
+    def atom():
+        k = nxt()
+        if k == "(":
+            v = expr(1)
+            if nxt() != ")":
+                raise TableError("unbalanced %r" % orig)
+            return v
+        if k == "-":
+            return -atom()
+        if k == "+":
+            return atom()
+        if k == "^":
+            return ~atom()
+        if re.match(r"\d", k):
+            k = k.replace("_", "")
+            if re.fullmatch(r"0[0-7]+", k):
+                return int(k, 8)
+            return int(k, 0)
+        if k in env:
+            return env[k]
+        raise TableError("unknown name %s in %r" % (k, orig))
+
+    PREC = {"*": 5, "/": 5, "%": 5, "<<": 5, ">>": 5, "&": 5, "&^": 5, "+": 4, "-": 4, "|": 4, "^": 4}
+
+    def expr(minp):
+        v = atom()
+        while peek() in PREC and PREC[peek()] >= minp:
+            op = nxt()
+            r = expr(PREC[op] + 1)
+            v = {"*": lambda: v * r, "/": lambda: v // r, "%": lambda: v % r, "<<": lambda: v << r, ">>": lambda: v >> r,
+                 "&": lambda: v & r, "&^": lambda: v & ~r, "+": lambda: v + r, "-": lambda: v - r, "|": lambda: v | r,
+                 "^": lambda: v ^ r}[op]()
+        return v
+
+    v = expr(1)
+    if pos[0] != len(toks):
+        raise TableError("trailing tokens in %r" % orig)
+    return v
 
 
 def consts(src):
